@@ -94,9 +94,11 @@ class Case final : public sim::CaseBase {
     if (now != 1) {
       sim::Fail("OVERLAP", "coroutine %d entered the critical section (%s) while another one is inside", w, kLockNames[r.lock]);
     }
+    sim::RaceRead(&cell, sizeof cell);
     before = cell;
   }
   void Exit(int w, Round& r) {
+    sim::RaceWrite(&cell, sizeof cell);
     cell = before + 1;
     if (inside != 1) {
       sim::Fail("OVERLAP", "another coroutine entered while coroutine %d was inside the critical section", w);
